@@ -7,7 +7,7 @@ from spec import c02 as S
 from checks.C01 import SKELETONS, LONG, STUBS
 
 BOUNDS = {
-    "quick": "idempotence + the four mode round trips on the 18 C01 skeletons with every hole string of length 0..1 (2 in path/query/fragment) x quoted, strip_fragment alternating; "
+    "quick": "idempotence + the four mode round trips on the 21 C01 skeletons with every hole string of length 0..1 (2 in path/query/fragment) x quoted, strip_fragment alternating; "
              "spelling transformations (case of scheme/host, explicit default port, lower-case hex in escapes, escaping an unreserved character, raw space vs %20, "
              "surrounding whitespace, an embedded control character, './', 'x/../', doubled '/', empty '?' / '#') applied around a hole of length 0..2",
     "thorough": "holes of length 0..3 (2 in netloc positions) x quoted x strip_fragment; transformations around holes of length 0..3",
